@@ -96,10 +96,20 @@ def seeded() -> str:
     return '\n'.join(rows) + '\n'
 
 
+def axioms() -> str:
+    rows = ['| property | axioms reported by `Print Assumptions` over all theorems of `Props/CNN.v` (from `evidence/CNN.json`) | obligations discharged | tier of that run |', '|---|---|---|---|']
+    for f in sorted(glob.glob(f'{ROOT}/evidence/C*.json')):
+        e = json.load(open(f))
+        tb = e['coverage'].get('trusted_base', [])
+        ax = next((t.split(':', 1)[1].strip() for t in tb if t.startswith('axioms reported')), 'not recorded')
+        rows.append(f'| {e["property_id"]} | {ax} | {e["coverage"].get("discharged")}/{e["coverage"].get("obligations")} | {e["tier"]} |')
+    return '\n'.join(rows) + '\n'
+
+
 def main() -> None:
     p = f'{ROOT}/DESIGN.md'
     s = open(p).read()
-    for name, fn in (('11.2', per_property), ('11.4', seeded)):
+    for name, fn in (('11.2', per_property), ('11.4', seeded), ('11.5', axioms)):
         b, e = f'<!-- BEGIN GENERATED {name} -->', f'<!-- END GENERATED {name} -->'
         assert b in s and e in s, name
         s = s[:s.index(b) + len(b)] + '\n' + fn() + '\n' + s[s.index(e):]
